@@ -51,6 +51,9 @@ func c14Stmts() []string {
 		"DELETE FROM u WHERE k2 = 1;",                                        // 15
 		"DELETE FROM t WHERE k >= 1 AND k <= 6;", // 16 range delete: empties the head page of the two-page heap
 		"DELETE FROM t WHERE k >= 7;",            // 17 range delete: empties the tail page of the two-page heap
+		"SELECT k FROM t WHERE v >= 's1' AND v <= 's9';",   // 18 range scan over the index of the wide column (several index nodes in the two-page seed)
+		"SELECT k FROM t WHERE v >= 's3' AND v <= 's5z';",  // 19 range scan that starts and ends inside the node chain
+		"SELECT k, v FROM t WHERE k >= 100 AND k <= 200;", // 20 index range scan that returns nothing
 	}
 }
 
